@@ -1040,10 +1040,14 @@ bool IGXMLScanner::normalizeAttValue( const   XMLAttDef* const    attDef
         //  by the char that was escaped.)
         while ((nextCh = *srcPtr)!=0)
         {
-            // Do we have an escaped character ?
+            //  Do we have an escaped character ? A character that came from a
+            //  character reference is only subject to space collapsing if it is
+            //  a #x20 (XML 1.0, 3.3.3), as in scanAttValue().
+            bool escaped = false;
             if (nextCh == 0xFFFF)
             {
                 nextCh = *++srcPtr;
+                escaped = true;
             }
             else if (nextCh == chOpenAngle) {
                 //  If its not escaped, then make sure its not a < character, which is
@@ -1054,7 +1058,7 @@ bool IGXMLScanner::normalizeAttValue( const   XMLAttDef* const    attDef
 
             if (curState == InWhitespace)
             {
-                if (!fReaderMgr.getCurrentReader()->isWhitespace(nextCh))
+                if ((escaped && nextCh != chSpace) || !fReaderMgr.getCurrentReader()->isWhitespace(nextCh))
                 {
                     if (firstNonWS)
                         toFill.append(chSpace);
@@ -1069,7 +1073,8 @@ bool IGXMLScanner::normalizeAttValue( const   XMLAttDef* const    attDef
             }
             else if (curState == InContent)
             {
-                if (fReaderMgr.getCurrentReader()->isWhitespace(nextCh))
+                if ((nextCh == chSpace) ||
+                    (fReaderMgr.getCurrentReader()->isWhitespace(nextCh) && !escaped))
                 {
                     curState = InWhitespace;
                     srcPtr++;
